@@ -233,7 +233,7 @@ class Association(threading.Thread):
         if self._sent_abort:
             return
 
-        if self.is_released:
+        if self.is_released or self.is_aborted:
             return
 
         # Set before restarting the reactor to prevent race condition
